@@ -30,6 +30,7 @@ type Interp struct {
 	NoMerge               bool
 	NoSlice               bool
 	fnNames               map[string]bool
+	globalCells           map[*Value]bool
 }
 
 type deferred struct {
@@ -190,6 +191,9 @@ func (p *Path) visitInstr(fr *frame, instr ssa.Instruction) continuation {
 			if g != nil && !strings.HasPrefix(g.Name(), "vp") {
 				p.abortf("store to package-level variable %s outside init (globals are shared between paths)", g)
 			}
+		}
+		if !p.initPhase && p.in.globalCells[addr] {
+			p.abortf("store into package-level state of the repository through a pointer (execution paths share that memory; harnesses must work on copies)")
 		}
 		store(deref(instr.Addr.Type()), addr, fr.get(instr.Val))
 
